@@ -84,6 +84,11 @@ def run_case(case):
         except ValueError:
             continue
         subs.append((sub, sparse, sfeat))
+        if rng.random() < 0.1:
+            try:
+                dec.add(sub, sparse=sparse)      # the same subordinate again: refused, and nothing may change
+            except ValueError:
+                pass
         if case.get("query_between_adds") and rng.random() < 0.15:
             from amaranth.hdl import Fragment
             Fragment.get(dec, None)   # bring-up elaboration of a partly populated decoder
@@ -91,6 +96,17 @@ def run_case(case):
             # read-only queries on a partly populated decoder must not change what is built later
             mm_ = dec.bus.memory_map
             list(mm_.window_patterns()), list(mm_.windows()), list(mm_.all_resources()), mm_.decode_address(0)
+    if subs and rng.random() < 0.25:
+        other = wishbone.Decoder(addr_width=aw, data_width=dw, granularity=gran, features=dfeat, alignment=case["al"])
+        for sub, sparse, sfeat in subs:
+            port = wishbone.Interface(addr_width=sub.addr_width, data_width=sub.data_width, granularity=sub.granularity,
+                                      features=sfeat, path=("xbar",))
+            port.memory_map = sub.memory_map         # a second port onto the same peripheral (crossbar)
+            try:
+                other.add(port, sparse=sparse)
+            except ValueError:
+                pass
+        mon_other = other
     by_map = {id(s.memory_map): (s, sp, sf) for s, sp, sf in subs}
     wins = []
     for w, _n, (s, e, ratio) in dec.bus.memory_map.windows():
